@@ -355,7 +355,12 @@ func execC07(e *Env, pp any) {
 		e.Violate(prop, "eof-after-cancel", site, "RecvMsg returned io.EOF for a cancelled stream whose trailer had not been read before the cancellation")
 	}
 	// (2) the send issued after the join (certainly invoked after t)
-	if n := len(tr.CSendErr); n == 0 || tr.CSendErr[n-1] == nil {
+	if n := len(tr.CSendErr); (n == 0 || tr.CSendErr[n-1] == nil) && p.Target.Kind == KSStream && (completedInFlight || concurrent) {
+		// the peer had finished the call when it was cancelled (the premise of C07 does not
+		// hold); on a single-request call SendMsg then reports nothing and leaves the
+		// call's outcome to RecvMsg (repair F69, as grpc-go)
+		e.Note("cancel.send-on-peer-finished-sstream")
+	} else if n == 0 || tr.CSendErr[n-1] == nil {
 		e.Violate(prop, "send-after-cancel-ok", site, "a SendMsg invoked after the cancellation succeeded")
 	} else if last := tr.CSendErr[n-1]; !completedInFlight && !concurrent && !isCtxStatus(last, p.Deadline) && last != io.EOF {
 		e.Violate(prop, "send-wrong-error", site, "SendMsg after the cancellation failed with %v, want the context's error", last)
